@@ -10,7 +10,10 @@ use std::sync::{Arc, Mutex};
 
 pub enum Msg {
     V(VMsg),
-    R(RMsg),
+    /// (process id = slot * 1000 + generation, result)
+    R(usize, RMsg),
+    /// world tags announced by a process while it worked on one item, in order
+    Tags(usize, Vec<String>),
     /// event digest of one world (self-test)
     D(String, u64),
     /// worker died while running `tag` of `item`
@@ -76,10 +79,11 @@ impl WorkerProc {
 
     /// Reads messages until the item's `R`; on EOF returns Err(last announced tag).
     pub fn collect(&mut self, mut on_v: impl FnMut(VMsg)) -> Result<RMsg, (String, String)> {
-        self.collect_d(&mut on_v, |_, _| {})
+        let mut tags = Vec::new();
+        self.collect_d(&mut on_v, |_, _| {}, &mut tags)
     }
 
-    pub fn collect_d(&mut self, on_v: &mut dyn FnMut(VMsg), mut on_d: impl FnMut(String, u64)) -> Result<RMsg, (String, String)> {
+    pub fn collect_d(&mut self, on_v: &mut dyn FnMut(VMsg), mut on_d: impl FnMut(String, u64), tags: &mut Vec<String>) -> Result<RMsg, (String, String)> {
         let mut last = String::new();
         let mut last_world = String::new();
         let mut line = String::new();
@@ -92,7 +96,8 @@ impl WorkerProc {
             let l = line.trim_end();
             if let Some(t) = l.strip_prefix("S ") {
                 last = t.to_string();
-                if t != "ref" {
+                tags.push(t.to_string());
+                if !t.starts_with("ref") {
                     last_world = t.to_string();
                 }
             } else if let Some(d) = l.strip_prefix("D ") {
@@ -195,7 +200,9 @@ pub fn run_pool(n: usize, items: Vec<Item>) -> Receiver<Msg> {
                     return;
                 }
             };
+            let mut generation = 0usize;
             loop {
+                let procid = slot * 1000 + generation;
                 let item = { queue.lock().unwrap().pop_front() };
                 let Some(item) = item else { break };
                 if !wp.send(&item) {
@@ -204,18 +211,23 @@ pub fn run_pool(n: usize, items: Vec<Item>) -> Receiver<Msg> {
                 }
                 let txv = tx.clone();
                 let txd = tx.clone();
-                match wp.collect_d(
+                let mut tags = Vec::new();
+                let res = wp.collect_d(
                     &mut |v| {
                         let _ = txv.send(Msg::V(v));
                     },
                     |t, d| {
                         let _ = txd.send(Msg::D(t, d));
                     },
-                ) {
+                    &mut tags,
+                );
+                let _ = tx.send(Msg::Tags(procid, tags));
+                match res {
                     Ok(r) => {
-                        let _ = tx.send(Msg::R(r));
+                        let _ = tx.send(Msg::R(procid, r));
                     }
                     Err((tag, last)) => {
+                        generation += 1;
                         if last.starts_with("protocol:") {
                             let _ = tx.send(Msg::Broken(last));
                             return;
@@ -244,7 +256,9 @@ pub fn run_pool(n: usize, items: Vec<Item>) -> Receiver<Msg> {
 
 /// Runs explicit worlds in one fresh worker; Ok((violations, result)) or Err(how the worker died).
 pub fn run_worlds_fresh(prop: &str, worlds: &[crate::world::World], wall_s: u64) -> Result<(Vec<VMsg>, RMsg), (String, String)> {
-    let mut wp = WorkerProc::spawn(900 + (std::process::id() as usize % 50)).map_err(|e| ("harness".to_string(), e))?;
+    static FRESH: std::sync::atomic::AtomicUsize = std::sync::atomic::AtomicUsize::new(0);
+    let slot = 900 + FRESH.fetch_add(1, std::sync::atomic::Ordering::SeqCst);
+    let mut wp = WorkerProc::spawn(slot).map_err(|e| ("harness".to_string(), e))?;
     let item = Item::Worlds { prop: prop.to_string(), worlds: worlds.to_vec(), wall_s };
     if !wp.send(&item) {
         return Err(("harness".into(), "cannot send".into()));
